@@ -542,6 +542,14 @@ class Gen(object):
         if not cands:
             return None
         m, f = rng.choice(cands)
+        # DeleteField shrinks every unique_together tuple naming the field:
+        # the remaining columns must already be unique in the rows
+        trows = (rows or {}).get(spec.table_name(app, m), [])
+        for t in (m.get('meta') or {}).get('unique_together') or []:
+            if f['name'] in t:
+                rest = [n for n in t if n != f['name']]
+                if rest and not _unique_ok(m, rest, trows):
+                    return None
         return {'op': 'DeleteField', 'model': m['name'], 'name': f['name']}
 
     def mut_RenameField(self, state, app, models, rows):
